@@ -1,6 +1,6 @@
 import DmrVerif.Lemmas.IntegrityFec
 import DmrVerif.Lemmas.IntegritySelf
-import DmrVerif.Lemmas.IntegrityHrnp
+import DmrVerif.Lemmas.IntegrityHrnpFix
 import DmrVerif.Props.C04a
 import DmrVerif.Props.C05a
 import DmrVerif.Spec.EtsiCodes
@@ -407,20 +407,26 @@ theorem crc_detect_full_false :
 /-! ## HRNP -/
 
 /-- **selfcheck**: what `as_bytes` assembles parses back with `checksum_correct` (`inner` = the HDAP
-serialisation of a DATA packet, empty for the other opcodes; `len(self)` = 12 + its length) -/
+serialisation of a DATA packet, empty for the other opcodes; `len(self)` = 12 + its length).  For a DATA
+packet `inner` is an HDAP message as `HDAP.as_bytes` frames it (`HdapFramed`: 7 octets longer than the
+payload length it states — C12 `hdap_frame`); the parser cross-checks exactly that since the repair of
+the length octets. -/
 theorem hrnp_selfcheck (hd ver blk opc src dst pn : Nat) (inner : Bytes)
-    (hop : hrnpOpcodes.contains opc = true) (hlen : 12 + inner.length < 65536) :
+    (hop : hrnpOpcodes.contains opc = true) (hlen : 12 + inner.length < 65536)
+    (hin : opc = hrnpData → HdapFramed inner) :
     hrnpDec (hrnpEnc hd ver blk opc src dst pn inner) false = .ok true :=
-  hrnp_selfcheck_lemma hd ver blk opc src dst pn inner hop hlen
+  (hrnpDec_true_iff _ _).mpr ⟨hrnp_selfcheck_lemma hd ver blk opc src dst pn inner hop hlen,
+    hrnpEnc_lenOk hd ver blk opc src dst pn inner hin hlen⟩
 
-/-- **one inverted bit** (partial: not in the two packet-length octets 8, 9): `d` is accepted, `d'`
-differs from it in octet `j` (inside the announced length) by a power of two below 256 — never
-accepted, whatever the HDAP stage does -/
+/-- **one inverted bit** (partial: not in the two packet-length octets 8, 9; the full statement for DATA
+packets is `hrnp_single_bit` in `Props/C04p`): `d` is accepted, `d'` differs from it in octet `j`
+(inside the announced length) by a power of two below 256 — never accepted, whatever the HDAP stage does -/
 theorem hrnp_single_bit_partial (d : Bytes) (hd : hrnpDec d false = .ok true) (j y b : Nat)
     (hj : j < be16 ((d.take 10).drop 8)) (h8 : j ≠ 8) (h9 : j ≠ 9) (hb : b < 8)
     (hy : y = d.getD j 0 + 2 ^ b ∨ d.getD j 0 = y + 2 ^ b) (hdapFails : Bool) :
     hrnpDec (d.set j y) hdapFails ≠ .ok true :=
-  hrnp_single_bit d hd j y b hj h8 h9 hb hy hdapFails
+  hrnpDec_ne_of_old _ _
+    (hrnp_single_bit d ((hrnpDec_true_iff d false).mp hd).1 j y b hj h8 h9 hb hy hdapFails)
 
 /-! ## non-vacuity -/
 
